@@ -295,6 +295,8 @@ func rulesC09(c *Ctx) {
 	ruleC09Recheck(c, impls)
 	// the checks decide presence of nil-valued entries through TypedBucket.IsKeyPresent
 	ruleKeyPresence(c, "C09.PRESENCE")
+	ruleFreshIndexingContext(c, "C09.FRESHCTX")
+	ruleNoAliasingAppend(c, "C09.ALIASAPPEND", "boltz")
 	ruleC09FanoutAlways(c)
 	ruleC09Dangling(c)
 	// "no reference" is decided by the value, as the index maintenance does
